@@ -373,6 +373,17 @@ def scenarios():
          {"Order": {"type": "object", "properties": {"status": {"type": "string", "enum": ["open", "paid"]}}}, "Invoice": {"type": "object", "properties": {"status": {"type": "string", "enum": ["open", "paid"]}}}},
          {"Ticket": {"type": "object", "properties": {"status": {"type": "string", "enum": ["todo", "done"]}}}, "Task": {"type": "object", "properties": {"status": {"type": "string", "enum": ["todo", "done"]}}}},
          ("field", "Order", "status")),
+        # (a fifth element: what the type at the use site must still contain / must not be, whatever else is in the spec)
+        ("union member that extends a referenced schema (allOf [$ref Base, {extra}]) next to a plain $ref Base",
+         {"Base": {"type": "object", "properties": {"id": {"type": "integer"}}},
+          "HolderX": {"type": "object", "properties": {"item": {"oneOf": [{"allOf": [ref("Base"), {"type": "object", "required": ["extra"], "properties": {"extra": S}}]}, {"type": "integer"}]}}}},
+         {"PlainUse": {"type": "object", "properties": {"b": ref("Base")}}}, ("field", "HolderX", "item"), lambda t: "extra" in t),
+        ("map values / nested array items that are anyOf [$ref Widget, primitive] next to a plain $ref Widget",
+         {"Widget": {"type": "object", "required": ["w"], "properties": {"w": S}},
+          "HolderW": {"type": "object", "properties": {"extras": {"type": "object", "additionalProperties": {"anyOf": [ref("Widget"), {"type": "integer"}]}},
+                                                       "grid": {"type": "array", "items": {"type": "array", "items": {"anyOf": [ref("Widget"), {"type": "boolean"}]}}}}}},
+         {"PlainW": {"type": "object", "properties": {"one": ref("Widget")}}}, ("type", "HolderW", None),
+         lambda t: not re.search(r"extras: Option<std::collections::HashMap<String, T\d+>>", t) and not re.search(r"grid: Option<Vec<Vec<T\d+>>>", t)),
         ("inline enum vs named enum with a superset of values",
          {"HolderE": {"type": "object", "properties": {"v": {"type": "string", "enum": ["a", "b"]}}}}, {"Wide": {"type": "string", "enum": ["a", "b", "c"]}}, ("field", "HolderE", "v")),
     ]
@@ -390,7 +401,9 @@ def scenario_part(d, viol):
         rc, txt = vlib.oas(["generate", "types", "-i", sp, "-o", out, "-q", "--all-schemas", "--no-helpers"], timeout=120)
         return rc, txt[-300:], (open(out).read() if rc == 0 and os.path.exists(out) else "")
     n = 0
-    for k, (name, alone, added, loc) in enumerate(scs):
+    for k, sc in enumerate(scs):
+        name, alone, added, loc = sc[:4]
+        expect = sc[4] if len(sc) > 4 else None
         ra = gen(wrap(alone), os.path.join(d, f"sc{k}", "alone"))
         rc_ = gen(wrap(dict(alone, **added)), os.path.join(d, f"sc{k}", "comb"))
         if ra[0] != 0 or rc_[0] != 0:
@@ -400,6 +413,8 @@ def scenario_part(d, viol):
         ta, tc = site_text(ra[2], loc), site_text(rc_[2], loc)
         if ta is None or tc is None:
             viol.append(({"scenario": name}, wrap(dict(alone, **added)), f"scenario '{name}': use site {loc} not found (alone: {ta is not None}, combined: {tc is not None})", None))
+        elif expect is not None and not (expect(ta) and expect(tc)):
+            viol.append(({"scenario": name}, wrap(dict(alone, **added)), f"scenario '{name}': the type at {loc} has collapsed onto the referenced schema's type: {(tc if not expect(tc) else ta)[:300]!r}", None))
         elif ta != tc and not (ta.count("impl core::fmt::Display") != tc.count("impl core::fmt::Display") and serde_view(ta) == serde_view(tc)):
             viol.append(({"scenario": name}, wrap(dict(alone, **added)), f"scenario '{name}': adding the component {sorted(added)} changes the type at {loc}: {first_diff(tc, ta)}", classify_scenario(name)))
     return n
